@@ -37,7 +37,7 @@ package verifier
 
 // configuration well-formedness (build-time data, never witness values)
 //@ def cd_ok(cd) = cd_small(cd) && params_ok(cd.FriParams) && cd.Config.NumChallenges <= pow2(16) && cd.Config.FriConfig.NumQueryRounds <= pow2(32) &&
-//@     pp_relation(cd) && cd.NumGateConstraints <= pow2(32) && len(cd.KIs) == cd.Config.NumRoutedWires && forall(k, 0, len(cd.KIs), cd.KIs[k] < P)
+//@     pp_relation(cd) && cd.NumGateConstraints <= pow2(32) && len(cd.KIs) == cd.Config.NumRoutedWires && forall(k, 0, len(cd.KIs), cd.KIs[k] < P) && sel_small(cd.SelectorsInfo)
 //@ def vchip_ok(c) = chipok(c.glChip) && chipok(c.friChip.gl) && chipok(c.poseidonGlChip.Gl) && cd_ok(c.commonData) && cd_small(c.friChip.commonData) && params_ok(c.friChip.friParams) &&
 //@     plonk_ok(c.plonkChip) && pp_relation(c.plonkChip.commonData)
 
